@@ -179,6 +179,10 @@ def run_schedule(chooser: Any, order: list[str], *, kinds: dict[str, str], tp: b
             await asyncio.sleep(delays[name])
             if kinds[name] == "reconnect":
                 await ecu.reconnect()
+            elif kinds[name] == "raw":
+                # the same request handed over as bytes (what `primitive uds pdu`, the fuzzers and the scanners' raw
+                # probes do): same service id as the other callers, another identifier
+                await ecu.send_raw(bytes([0x22]) + (0x1000 + idx).to_bytes(2, "big"))
             else:
                 await ecu.read_data_by_identifier(0x1000 + idx)
 
@@ -308,6 +312,11 @@ def run(tier: str, seed: int) -> Report:
         plans.append((list(order), {"c1": "req", "c2": "req"}, False, 0, SCRIPTS))
         plans.append((list(order), {"c1": "req", "c2": "req"}, True, 0, ["imm", "pend", "late", "pendslow"]))
         plans.append((list(order), {"c1": "req", "c2": "reconnect"}, False, 1, ["imm", "late", "err"]))
+    # callers that hand their request over as bytes (send_raw), alone and mixed with typed callers
+    for order in itertools.permutations(two):
+        plans.append((list(order), {"c1": "raw", "c2": "raw"}, False, 0, ["imm", "pend", "late"]))
+        plans.append((list(order), {"c1": "raw", "c2": "req"}, False, 0, ["imm", "late"]))
+        plans.append((list(order), {"c1": "raw", "c2": "raw"}, True, 1, ["imm", "late"]))
     for order in itertools.permutations(three):
         plans.append((list(order), {"c1": "req", "c2": "req", "c3": "req"}, False, 0,
                       ["imm", "pend", "late"] if tier == "quick" else SCRIPTS))
